@@ -210,3 +210,14 @@ CLAIMED['C35'] = dict(
          "(no abstract sequence ghost); storage_ bytes are rendered as a slot array; slot loops are bounded by the constant kBufferSize and unwound completely. Not under contract yet: "
          "try_push_batch, try_pop_batch, OpResult-returning try_pop.",
     technique="CBMC DFCC contracts, rely/guarantee via interference before each atomic macro, ghost lifetimes")
+
+CLAIMED['C39'] = dict(
+    category='proof',
+    text="For an abstract functor type with symbolic sizeof/alignof (every size, every power-of-two alignment <= 256): createOnceCallable's selection expression picks inline storage exactly "
+         "when the functor fits the 56-byte alignas(64) buffer (then size and alignment are satisfied); the spill overload's kAllocSize = nextPow2(max(size, align)) is >= size, a power of "
+         "two and a multiple of the alignment, and allocation and release use the same constant; invokeInline / invokeSpill invoke the functor iff run, destroy it exactly once, and the "
+         "spill block is freed exactly once to the size class it came from; the move constructor transfers all 56 storage bytes and the trampoline; operator() and cleanupNotRun dispatch "
+         "exactly once with run = true / false.",
+    note="Functor body is a ghost invocation event; T is a value tag; non-DISPENSO_DEBUG build; which trampoline ends up in invoke_ is template dispatch (read, not proved); double invocation "
+         "and use-after-move are documented misuse. Relies on the nextPow2 contract (C44) and the small-buffer block contract (C41).",
+    technique="CBMC DFCC function contracts with symbolic type parameters and ghost lifetimes / ghost pool")
